@@ -144,8 +144,10 @@ class Game(AsyncMode):
             self.request_player_add()
 
         # Wait for player to be added before game can start
+        # (no player will be added anymore when the game has been asked to end in the meantime)
         # TODO: Add timeout to wait
-        await self._at_least_one_player_event.wait()
+        if self.player_list or not self.ending:
+            await self._at_least_one_player_event.wait()
 
         await self.machine.events.post_async('game_started')
         '''event: game_started
